@@ -21,7 +21,7 @@ Lemma run_spec_snoc rx n ops o : run_spec rx n (ops ++ [o]) = apply_op rx n (run
 Proof. unfold run_spec. rewrite fold_left_app. reflexivity. Qed.
 
 Definition is_compaction (o : op) : bool :=
-  match o with OCompactLog _ | OCompactLevel _ _ | OSfCompact | OSnapshot _ | OReopen => true | _ => false end.
+  match o with OCompactLog _ | OCompactLevel _ _ | OSfCompact | OSnapshot _ | OSfRoll | OReopen => true | _ => false end.
 
 Lemma compaction_view rx n ops o q :
   wf_ops ops = true -> wf_query n q = true -> is_compaction o = true ->
@@ -47,6 +47,21 @@ Proof.
   apply answer_equiv_sym. apply (lsm_refines rx n ops q Hw Hq).
 Qed.
 
+(* ---------- the next series id survives a restart, whatever segment files there are ---------- *)
+
+Lemma next_id_recovery rx n ops :
+  wf_ops ops = true ->
+  let sft := ts_sf (ts_run rx n ops) in
+  let sfi := is_sf (is_run rx n ops) in
+  (sf_reopen sft = sft /\ forall i s, sf_key sft i = Some s -> (i < seg_recover (sf_segs sft))%N) /\
+  (sf_reopen sfi = sfi /\ forall i s, sf_key sfi i = Some s -> (i < seg_recover (sf_segs sfi))%N).
+Proof.
+  intros Hw. cbv zeta. pose proof (tk_sf _ _ _ (ts_run_ok rx n ops Hw)) as It. pose proof (ik_sf _ _ _ (is_run_ok rx n ops Hw)) as Ii.
+  split; (split; [apply sf_reopen_id; assumption|]); intros i s Hk.
+  - rewrite (si_segs _ It). eapply sf_key_bound; eauto.
+  - rewrite (si_segs _ Ii). eapply sf_key_bound; eauto.
+Qed.
+
 (* ---------- the executable link ---------- *)
 
 Lemma nlist_eqb_refl l : nlist_eqb l l = true.
@@ -62,10 +77,16 @@ Proof.
 Qed.
 
 Lemma ts_answer_nodup rx st q : answer_nodup (ts_answer rx st q).
-Proof. destruct q as [c|m c|m k c|m c|sh m c| | ]; cbn; try exact Logic.I; apply (NoDup_dedup row_eqb row_eqb_eq). Qed.
+Proof.
+  destruct q as [c|m c|m k c|m c|sh m c|sh bsz small m c| | ]; cbn [ts_answer answer_nodup]; try exact Logic.I;
+    try (destruct (cv_index _ _ _ _)); apply (NoDup_dedup row_eqb row_eqb_eq).
+Qed.
 
 Lemma is_answer_nodup rx st q : answer_nodup (is_answer rx st q).
-Proof. destruct q as [c|m c|m k c|m c|sh m c| | ]; cbn; try exact Logic.I; apply (NoDup_dedup row_eqb row_eqb_eq). Qed.
+Proof.
+  destruct q as [c|m c|m k c|m c|sh m c|sh bsz small m c| | ]; cbn [is_answer answer_nodup]; try exact Logic.I;
+    try (destruct (cv_index _ _ _ _)); apply (NoDup_dedup row_eqb row_eqb_eq).
+Qed.
 
 Lemma answer_eqb_refl a : answer_nodup a -> a <> AErr -> answer_eqb a a = true.
 Proof.
@@ -86,8 +107,8 @@ Proof.
   assert (E2 : answer_eqb (ts_answer rx (ts_run rx n ops) q) (spec_answer rx n (run_spec rx n ops) q) = true)
     by (apply answer_eqb_of_equiv; [apply ts_answer_nodup|apply lsm_refines; assumption]).
   assert (R1 : answer_eqb (is_answer rx (is_run rx n ops) q) (is_answer rx (is_run rx n ops) q) = true).
-  { apply answer_eqb_refl; [apply is_answer_nodup|]. destruct q; cbn; discriminate. }
+  { apply answer_eqb_refl; [apply is_answer_nodup|]. destruct q; cbn [is_answer]; try (destruct (cv_index _ _ _ _)); discriminate. }
   assert (R2 : answer_eqb (ts_answer rx (ts_run rx n ops) q) (ts_answer rx (ts_run rx n ops) q) = true).
-  { apply answer_eqb_refl; [apply ts_answer_nodup|]. destruct q; cbn; discriminate. }
+  { apply answer_eqb_refl; [apply ts_answer_nodup|]. destruct q; cbn [ts_answer]; try (destruct (cv_index _ _ _ _)); discriminate. }
   rewrite E1, E2, R1, R2. cbn. rewrite !orb_true_r. reflexivity.
 Qed.
